@@ -293,6 +293,37 @@ theorem user_args_kept (e : Env) (ver : Option Nat) (q : Bool) (sel : Selection)
 example : launch ⟨none, some ["less", "-X", "-F"], some ["less"]⟩ (some 590) true
     = .less "less" ["-X", "-F"] := by decide
 
+/-! ### Starting less under `navigate` cannot panic -/
+
+/-- The invariant `Config::from` must establish for the `unwrap()` in
+    `copy_less_hist_file_and_append_navigate_regex`: navigate on (or `--show-themes`) ⇒
+    `navigate_regex` is `Some`, whatever the user gave as `--navigate-regex` — unset, the empty
+    string, or a regex. -/
+theorem navigate_implies_regex (o : NavOpt) (h : o.navigate = true ∨ o.showThemes = true) :
+    (configNavigateRegex o).any RegexVal.isSome = true := by
+  obtain ⟨nav, st, rc⟩ := o
+  cases nav <;> cases st <;> cases rc <;> simp at h <;> decide
+
+example : (⟨true, false, .empty⟩ : NavOpt).navigate = true := rfl
+
+/-- An unset or empty `--navigate-regex` means the default regex; a non-empty one is kept. -/
+theorem navigate_regex_default (st : Bool) :
+    configNavigateRegex ⟨true, st, .unset⟩ = some .default ∧
+    configNavigateRegex ⟨true, st, .empty⟩ = some .default ∧
+    configNavigateRegex ⟨true, st, .nonempty⟩ = some .given := by
+  cases st <;> decide
+
+/-- Every `unwrap()`/`expect()` on the less set-up path is on a configuration field whose being
+    `Some` is established by `Config::from`: for every combination of navigate / show-themes /
+    navigate-regex the set-up completes, with the history file iff navigate is on. -/
+theorem less_setup_never_panics (o : NavOpt) :
+    (lessSetup o).okWithHist o.navigate = true := by
+  obtain ⟨nav, st, rc⟩ := o
+  cases nav <;> cases st <;> cases rc <;> decide
+
+example : lessSetup ⟨true, false, .empty⟩ = .ok true [] := by decide
+example : lessSetup ⟨true, true, .unset⟩ = .ok true ["+n"] := by decide
+
 /-! ### Event order -/
 
 /-- On every path on which a pager was spawned, the run ends with: close the pager's stdin,
